@@ -2,7 +2,7 @@
 from props import helix_common as hc
 
 def run(ck):
-    hc.standard(ck, "C11", "C11.v", ["HelixCommon.v", "HelixLaws.v"], "c11",
+    hc.standard(ck, "C11", "C11.v", ["HelixCommon.v", "HelixLaws.v", "C12Proofs.v", "C11ErrProofs.v"], "c11",
                 "helices of both charges with/without error matrix x sequences of 1-4 pivots x object / record / array form: chained "
                 "result vs direct move (dr, phi0 exactly; dz up to whole pitches, exactly when the accumulated turning angle is within "
                 "half a turn), identity and there-and-back on canonical inputs incl. the error matrix, phi0 range, reported pivot, "
